@@ -206,6 +206,9 @@ pub fn gen_plan(run_seed: u64) -> Plan {
         1 => Mode::Chaotic,
         _ => Mode::Backstep,
     };
+    // one run in 150 is a marathon: hundreds of calls on one instance (counters, caches and
+    // anything else that only shows after many calls)
+    let marathon = mode != Mode::Backstep && rng.chance(1, 150);
     let flavor = match rng.weighted(&[3, 4, 3]) {
         0 => Flavor::Dense,
         1 => Flavor::Sparse,
@@ -213,7 +216,7 @@ pub fn gen_plan(run_seed: u64) -> Plan {
     };
     let (expr, sets) = gen_sat_expr(&mut rng, flavor);
     let start = gen_start(&mut rng, &sets);
-    let n_events = rng.range(3, 40) as usize;
+    let n_events = if marathon { rng.range(300, 1500) as usize } else { rng.range(3, 40) as usize };
     let mut g = GenState {
         now: start,
         lasts: vec![None],
@@ -245,7 +248,8 @@ pub fn gen_plan(run_seed: u64) -> Plan {
         Mode::Chaotic | Mode::Backstep => {
             while events.len() < n_events {
                 let back_w = if mode == Mode::Backstep { 3 } else { 0 };
-                match rng.weighted(&[10, 8, 1, 1, back_w]) {
+                let w_adv = if marathon { 3 } else { 8 };
+                match rng.weighted(&[10, w_adv, 1, 1, back_w]) {
                     0 => {
                         let p = rng.usize(g.lasts.len());
                         events.push(Ev::Next(p));
